@@ -120,7 +120,7 @@ def lam_lit(lam):
 
 def literal(case, out):
     tl = lambda j: C.termsl([(k, F(v[0], v[1])) for k, v in j])
-    cin = "{| c_kind := %s; c_terms := %s; c_upd := %s; c_meth := %d%%nat; c_deg := %s; c_lam := %s; c_pairs := [%s] |}" % (
+    cin = "{| d_kind := %s; d_terms := %s; d_upd := %s; d_meth := %d%%nat; d_deg := %s; d_lam := %s; d_pairs := [%s] |}" % (
         KIND[case["kind"]], tl(case["terms"]), tl(case["upd"]), case["meth"], C.optc(case["deg"], C.nat), lam_lit(case["lam"]),
         "; ".join(C.keyl(p) for p in (case["pairs"] or [])))
     exp = "OErr %s" % out["error"] if "error" in out else "OModelOut %s %s" % (KIND[out["kind"]], tl(out["terms"]))
